@@ -107,6 +107,10 @@ class ExecutorDied(Broken):
         Broken.__init__(self, "executor %s died (status %s) on request %s" % (args, status, json.dumps(req)[:2000]))
         self.status = status
         self.req = req
+        self.cmd = args
+
+    def __reduce__(self):          # must survive the trip from a pool worker to the parent
+        return (ExecutorDied, (self.status, self.req, self.cmd))
 
 
 class Mon:
@@ -346,12 +350,32 @@ class Shard:
 def pmap(fn, shards, procs=None):
     """Run fn over shards in a process pool; fn returns Shard.dict()."""
     import multiprocessing as mp
+    from concurrent.futures import ProcessPoolExecutor
+    from concurrent.futures.process import BrokenProcessPool
     procs = procs or NCPU
     if len(shards) <= 1 or procs == 1:
         return [fn(s) for s in shards]
-    ctx = mp.get_context("fork")
-    with ctx.Pool(min(procs, len(shards))) as pool:
-        return pool.map(fn, shards, chunksize=1)
+    # ProcessPoolExecutor (not multiprocessing.Pool): if a worker process dies, the call fails instead of hanging forever
+    try:
+        with ProcessPoolExecutor(max_workers=min(procs, len(shards)), mp_context=mp.get_context("fork")) as ex:
+            return list(ex.map(fn, shards, chunksize=1))
+    except BrokenProcessPool:
+        raise Broken("a worker process of the check died unexpectedly")
+
+
+def pimap(fn, items, chunksize=4, procs=None):
+    """Like pmap, for many small tasks (results in order)."""
+    import multiprocessing as mp
+    from concurrent.futures import ProcessPoolExecutor
+    from concurrent.futures.process import BrokenProcessPool
+    items = list(items)
+    if not items:
+        return []
+    try:
+        with ProcessPoolExecutor(max_workers=min(procs or NCPU, len(items)), mp_context=mp.get_context("fork")) as ex:
+            return list(ex.map(fn, items, chunksize=chunksize))
+    except BrokenProcessPool:
+        raise Broken("a worker process of the check died unexpectedly")
 
 
 def split(items, n):
